@@ -43,8 +43,9 @@ ASSUMPTIONS = [
     "messages are opaque objects compared by identity",
 ]
 
-VMAX = 8      # timeout / redo grid [0, VMAX]
-DMAX = 5      # stamp advance per step [0, DMAX]
+CMAX = 8      # constructor obligations: timeout / redo grid [0, CMAX]
+VMAX = 64     # schedules: timeout / redo in [0, VMAX] (genuinely symbolic)
+DMAX = 40     # stamp advance per step [0, DMAX]
 
 
 def exact_reals(sym):
@@ -109,8 +110,8 @@ def h_ctor(sym, kind):
     stack.stamper.stamp = sym.int("c0", 0, 20)
     use_to = sym.flag("use_to")
     use_rt = sym.flag("use_rt")
-    to = sym.int("to", 0, VMAX)
-    rt = sym.int("rt", 0, VMAX)
+    to = sym.int("to", 0, CMAX)
+    rt = sym.int("rt", 0, CMAX)
     ex = construct(sym, cls, stack, use_to, use_rt, to, rt)
     sym.cover("to-%s/rt-%s" % ("given" if use_to else "absent", "given" if use_rt else "absent"))
     eto = to if use_to else cls.Timeout
@@ -139,7 +140,9 @@ def h_sched(sym, kind, route, N, resend):
         if route == "args":
             ex = construct(sym, base, stack, True, True, to, rt, tx=m0)
         else:
-            cls = type("Sub" + kind, (base,), dict(Timeout=to, RedoTimeout=rt))
+            cls = type("Sub" + kind, (base,), {})
+            cls.Timeout = to            # assigned after creation: type(name, bases, dict) would realise the values
+            cls.RedoTimeout = rt
             ex = construct(sym, cls, stack, False, False, None, None, tx=m0)
     now = c0 + sym.int("d_start", 0, DMAX)
     stack.stamper.stamp = now
@@ -203,24 +206,28 @@ def h_sched(sym, kind, route, N, resend):
     return True
 
 
+N_PLAIN = dict(quick=4, thorough=6)
+N_RESEND = dict(quick=3, thorough=4)
+
+
 def obligations(tier):
     quick = tier == "quick"
-    N = 3 if quick else 5
     out = []
     for kind in ("Exchange", "Exchanger", "Exchangent"):
-        out.append(Ob("ctor/" + kind, h_ctor, dict(kind=kind), budget=120,
+        out.append(Ob("ctor/" + kind, h_ctor, dict(kind=kind), budget=120, max_fail_keys=1,
                       covers=["to-%s/rt-%s" % (a, b) for a in ("absent", "given") for b in ("absent", "given")],
-                      bounds=dict(timeout=[0, VMAX], redoTimout=[0, VMAX], combos="absent/given x absent/given")))
+                      bounds=dict(timeout=[0, CMAX], redoTimout=[0, CMAX], combos="absent/given x absent/given")))
     for kind in ("Exchange", "Exchanger"):
         for route in ("args", "class", "defaults"):
             covers = ["done", "retransmit", "timed-out"]
             if route != "defaults":
                 covers.append("timeout-zero")
-            for resend in ((False, True) if not quick else (False,)):
+            for resend in (False, True):
+                n = (N_RESEND if resend else N_PLAIN)[tier]
                 name = "sched/%s/%s%s" % (kind, route, "/resend" if resend else "")
-                out.append(Ob(name, h_sched, dict(kind=kind, route=route, N=N, resend=resend),
-                              budget=300 if quick else 900,
+                out.append(Ob(name, h_sched, dict(kind=kind, route=route, N=n, resend=resend),
+                              budget=120 if quick else 1200, max_fail_keys=1,
                               covers=covers + (["new-latest-message"] if resend else []),
-                              bounds=dict(timeout=[0, VMAX], redo=[0, VMAX], process_calls=N, advance=[0, DMAX],
-                                          construct_stamp=[0, 20], start_delay=[0, DMAX])))
+                              bounds=dict(timeout=[0, VMAX], redo=[0, VMAX], process_calls=n, advance=[0, DMAX],
+                                          construct_stamp=[0, 20], start_delay=[0, DMAX], new_message_between_calls=resend)))
     return out
